@@ -4,7 +4,7 @@ From ZV.C03 Require Import Model ProofsMem ProofsMixed ProofsZip ProofsSimple.
 From ZV.C03 Require Import ProofsSimpleGet ModelStore ProofsStore ModelZero ProofsZero ModelPlain ProofsPlainFs ProofsPlain.
 From ZV.C03 Require Import ModelWrap ProofsWrap ModelCached ProofsCached ModelDictZip ProofsDictZip ModelCases ProofsStack.
 From Coq Require Import Permutation.
-From ZV.C03 Require Import ModelBatch ProofsBatch ModelNltb ProofsNltb.
+From ZV.C03 Require Import ModelBatch ProofsBatch ModelNltb ProofsNltb ModelFromData ProofsFromData.
 Open Scope N_scope.
 
 (* MemoryBlobStore: for EVERY history of put/put_batch/remove/get+contains+size/len issuing fewer than 2^32-1 ids,
@@ -583,3 +583,27 @@ Theorem nltb_standin_lawful : trie_lawful atrie atrie_ok [] atrie_insert atrie_l
 Proof. exact atrie_lawful_proof. Qed.
 Check nltb_standin_lawful : trie_lawful atrie atrie_ok [] atrie_insert atrie_lookup.
 Print Assumptions nltb_standin_lawful.
+
+(* MemoryBlobStore::from_data as the start of a history: for every map (distinct ids, as a HashMap has them) on which from_data does
+   not overflow and EVERY history that keeps the counter below 2^32, every observation equals the property's machine started with
+   the records of the map live under their ids and the counter above every id; the id the next put returns is above every seeded id
+   (the counter wrap beyond that bound is the recorded finding memory_id_wraparound) *)
+Theorem mem_from_data_history_refines_spec :
+  forall m st ops, NoDup (keys m) -> mem_from_data m = Some st ->
+    s_next (spec_from_data m) + puts ops < W32 ->
+    mem_run st ops = spec_run (spec_from_data m) ops.
+Proof. exact mem_from_data_refines_proof. Qed.
+Check mem_from_data_history_refines_spec :
+  forall m st ops, NoDup (keys m) -> mem_from_data m = Some st ->
+    s_next (spec_from_data m) + puts ops < W32 ->
+    mem_run st ops = spec_run (spec_from_data m) ops.
+Print Assumptions mem_from_data_history_refines_spec.
+
+Theorem mem_from_data_ids_fresh :
+  forall m st, NoDup (keys m) -> mem_from_data m = Some st ->
+    forall id d, alookup id m = Some d -> id < mnext st.
+Proof. exact mem_from_data_ids_fresh_proof. Qed.
+Check mem_from_data_ids_fresh :
+  forall m st, NoDup (keys m) -> mem_from_data m = Some st ->
+    forall id d, alookup id m = Some d -> id < mnext st.
+Print Assumptions mem_from_data_ids_fresh.
